@@ -6,10 +6,10 @@ CHECK = {
     "flavours": ["asan"],
     "quick": {"shards": 8, "timeout": 900},
     "thorough": {"shards": 16, "timeout": 3600},
-    "required_categories": ["float", "double", "method_cholesky", "method_svd", "method_weighted", "precond_general",
-                            "precond_diagonal", "history_with_shrink", "history_with_growth", "estimate_size_1", "estimate_size_8"],
+    "required_categories": ["float", "double", "method_cholesky", "method_svd", "method_weighted", "precond_general", "precond_graded_nearly_diagonal",
+                            "precond_diagonal", "history_with_shrink", "problem_written_through_kept_references", "history_with_growth", "estimate_size_1", "estimate_size_8"],
     "required_oracles": ["normal_equations.cholesky", "normal_equations.svd", "normal_equations.weighted", "agrees_with_qr",
-                         "affine_preconditioner_applied", "cholesky_svd_agree", "history_independent"],
+                         "affine_preconditioner_applied", "affine_preconditioner_applied.componentwise", "cholesky_svd_agree", "history_independent"],
     "required_counters": ["problems_checked"],
     "rule": "case = history of 2..12 problems on ONE LeastSquares<float|double> object of estimate size 1..8: data size m..500 "
             "going up and down, J = U S V^T with prescribed cond(J) (cond(JtJ) < 1e6) and overall scale 1e-6..1e6, Y in range / "
@@ -23,7 +23,7 @@ CHECK = {
                   "problem alone (history independence, stale rows poisoned); ASan+UBSan and Eigen assertions watch the same executions",
     "level_note": ASAN_NOTE,
     "technique": "runtime monitoring: sanitizer build + long-double QR reference + differential (fresh vs reused object, Cholesky vs SVD) monitors over generated histories",
-    "assumptions": ["bound G = 16 eps (cond(JtJ)|JtY| + sqrt(n)|J||Y| + |JtJ||x|); problems with 16 eps cond >= 1e-2 (float beyond cond ~5e3) are counted as vacuous, not as checked",
+    "assumptions": ["bound G = 16 eps (cond(JtJ)|JtY| + sqrt(n)|J||Y| + |JtJ||x|); problems with 16 eps cond >= 1e-1 (float beyond cond ~5e3) are counted as vacuous, not as checked",
                     "the estimate size of an object is fixed at construction (the statement varies the data size)"],
 }
 
